@@ -129,6 +129,42 @@ ZERO_DENSITY = ("UThZr",)
 #     with both arguments set.  (Tk=... works, which is how components call it.)
 KNOWN_DEFECT_air_celsius = False  # repaired in /repo (fix: 3ea0111)
 CELSIUS_CALL_RAISES = ("Air",)
+# (4) Sulfur's default mass fractions sum to 1.0018: S36 is entered as 0.002 (natural: 0.0002; with that value the
+#     four fractions sum to exactly 1).
+KNOWN_DEFECT_sulfur_mass_fractions = True
+MASS_FRACTIONS_OFF = {"Sulfur": 1.0018}
+# (5) Potassium defines no composition at all (no setDefaultMassFracs): a component made of it has a positive density
+#     and no nuclides.
+KNOWN_DEFECT_potassium_has_no_composition = True
+NO_COMPOSITION = ("Potassium",)
+
+# "mass fractions summing to one within data precision": the compositions are entered with 4 to 9 decimals; 1e-5 is
+# armi's own acceptance limit for a user-entered mass-fraction vector (CustomIsotopic._initializeMassFracs), and the
+# unchanged library is within 1.0e-6 (MOX, six-decimal data) apart from the two recorded above.
+MASS_FRACTION_SUM_TOL = 1e-5
+
+
+def check_composition(ctx, mat, m):
+    """Concrete obligations on the default composition of the instance (finite data, no symbolic input)."""
+    from armi.nucDirectory import nuclideBases
+
+    mf = dict(m.massFrac)
+    unknown = sorted(n for n in mf if n not in nuclideBases.byName)
+    ctx.check("the composition refers only to known nuclides" + ("" if not unknown else ": %s" % unknown), not unknown)
+    bad = sorted(n for n, v in mf.items() if not (0.0 <= v <= 1.0))
+    ctx.check("every mass fraction lies in [0, 1]" + ("" if not bad else ": %s" % bad), not bad)
+    total = sum(mf.values())
+    if KNOWN_DEFECT_potassium_has_no_composition and mat in NO_COMPOSITION:
+        ctx.note("KNOWN_DEFECT_potassium_has_no_composition: %s().massFrac is empty" % mat)
+        ctx.check("known defect: the material has no composition (must have one summing to 1)", not mf)
+        return
+    if KNOWN_DEFECT_sulfur_mass_fractions and mat in MASS_FRACTIONS_OFF:
+        ctx.note("KNOWN_DEFECT_sulfur_mass_fractions: %s mass fractions sum to %r" % (mat, total))
+        ctx.check("known defect: the mass fractions sum to %r (must be 1)" % MASS_FRACTIONS_OFF[mat],
+                  abs(total - MASS_FRACTIONS_OFF[mat]) <= MASS_FRACTION_SUM_TOL)
+        return
+    ok = abs(total - 1.0) <= MASS_FRACTION_SUM_TOL
+    ctx.check("the default mass fractions sum to one within 1e-5" + ("" if ok else ": %s sums to %r" % (mat, total)), ok)
 
 
 def _finite(x):
@@ -184,6 +220,7 @@ def material_law_is_finite_and_density_positive(ctx, mat, default):
         Tr = ctx.real("T_density", rlo + dr, rhi - dr)
     for name, why in sorted(SKIPPED.items()):
         ctx.note("no material law of its own: %s (%s)" % (name, why))
+    check_composition(ctx, mat, m)          # "... refers only to known nuclides with mass fractions summing to one"
     covered = []
     canary = [ctx.canary]
 
